@@ -216,6 +216,7 @@ func verifAssume(cond bool) {}
 //@   modifies m.msgHandlers
 //@   ensures len(m.msgHandlers) == old(len(m.msgHandlers)) + 1
 //@   ensures m.msgHandlers[old(len(m.msgHandlers))] == handler
+//@   ensures [C20] @orderkept forall k : 0 <= k && k < old(len(m.msgHandlers)) ==> m.msgHandlers[k] == old(m.msgHandlers[k])
 
 //@ struct Notification
 //@   ghost field nHandled int
@@ -287,6 +288,7 @@ func verifAssume(cond bool) {}
 //@   modifies m.notHandlers
 //@   ensures len(m.notHandlers) == old(len(m.notHandlers)) + 1
 //@   ensures m.notHandlers[old(len(m.notHandlers))] == handler
+//@   ensures [C20] @orderkept forall k : 0 <= k && k < old(len(m.notHandlers)) ==> m.notHandlers[k] == old(m.notHandlers[k])
 
 //@ struct RequestCommand
 //@   ghost field nHandled int
@@ -358,6 +360,7 @@ func verifAssume(cond bool) {}
 //@   modifies m.reqCmdHandlers
 //@   ensures len(m.reqCmdHandlers) == old(len(m.reqCmdHandlers)) + 1
 //@   ensures m.reqCmdHandlers[old(len(m.reqCmdHandlers))] == handler
+//@   ensures [C20] @orderkept forall k : 0 <= k && k < old(len(m.reqCmdHandlers)) ==> m.reqCmdHandlers[k] == old(m.reqCmdHandlers[k])
 
 //@ struct ResponseCommand
 //@   ghost field nHandled int
@@ -429,6 +432,273 @@ func verifAssume(cond bool) {}
 //@   modifies m.respCmdHandlers
 //@   ensures len(m.respCmdHandlers) == old(len(m.respCmdHandlers)) + 1
 //@   ensures m.respCmdHandlers[old(len(m.respCmdHandlers))] == handler
+//@   ensures [C20] @orderkept forall k : 0 <= k && k < old(len(m.respCmdHandlers)) ==> m.respCmdHandlers[k] == old(m.respCmdHandlers[k])
+
+// ---------------------------------------------------------------------------
+// C20 - registration: "earliest-registered" means the order of the registration
+// CALLS. Every registration entry point (mux, server builder, client builder,
+// AutoReplyPings) appends exactly one handler to the table of its kind at the
+// moment it is called and leaves every earlier entry where it was (quantified
+// clause: proved for an arbitrary position k). A builder that defers or
+// reorders a registration breaks @registersnow / @orderkept.
+// ---------------------------------------------------------------------------
+
+//@ func (*EnvelopeMux).MessageHandlerFunc :: (m, predicate, f) ()
+//@   props C20
+//@   requires m != nil
+//@   modifies m.msgHandlers
+//@   ensures [C20] @registersnow len(m.msgHandlers) == old(len(m.msgHandlers)) + 1 && m.msgHandlers[old(len(m.msgHandlers))] != nil
+//@   ensures [C20] @wraps istype(m.msgHandlers[old(len(m.msgHandlers))], *messageHandler) && m.msgHandlers[old(len(m.msgHandlers))].(*messageHandler).predicate == predicate && m.msgHandlers[old(len(m.msgHandlers))].(*messageHandler).handlerFunc == f
+//@   ensures [C20] @orderkept forall k : 0 <= k && k < old(len(m.msgHandlers)) ==> m.msgHandlers[k] == old(m.msgHandlers[k])
+
+//@ func (*ServerBuilder).MessageHandlerFunc :: (b, predicate, f) (result)
+//@   props C20
+//@   requires b != nil && b.mux != nil
+//@   modifies b.mux.msgHandlers
+//@   ensures result == b
+//@   ensures [C20] @registersnow len(b.mux.msgHandlers) == old(len(b.mux.msgHandlers)) + 1 && b.mux.msgHandlers[old(len(b.mux.msgHandlers))] != nil
+//@   ensures [C20] @wraps istype(b.mux.msgHandlers[old(len(b.mux.msgHandlers))], *messageHandler) && b.mux.msgHandlers[old(len(b.mux.msgHandlers))].(*messageHandler).predicate == predicate && b.mux.msgHandlers[old(len(b.mux.msgHandlers))].(*messageHandler).handlerFunc == f
+//@   ensures [C20] @orderkept forall k : 0 <= k && k < old(len(b.mux.msgHandlers)) ==> b.mux.msgHandlers[k] == old(b.mux.msgHandlers[k])
+//@ func (*ServerBuilder).MessagesHandlerFunc :: (b, f) (result)
+//@   props C20
+//@   requires b != nil && b.mux != nil
+//@   modifies b.mux.msgHandlers
+//@   ensures result == b
+//@   ensures [C20] @registersnow len(b.mux.msgHandlers) == old(len(b.mux.msgHandlers)) + 1 && b.mux.msgHandlers[old(len(b.mux.msgHandlers))] != nil
+//@   ensures [C20] @wraps istype(b.mux.msgHandlers[old(len(b.mux.msgHandlers))], *messageHandler) && b.mux.msgHandlers[old(len(b.mux.msgHandlers))].(*messageHandler).predicate != nil && b.mux.msgHandlers[old(len(b.mux.msgHandlers))].(*messageHandler).handlerFunc == f
+//@   ensures [C20] @orderkept forall k : 0 <= k && k < old(len(b.mux.msgHandlers)) ==> b.mux.msgHandlers[k] == old(b.mux.msgHandlers[k])
+//@ func (*ServerBuilder).MessageHandler :: (b, handler) (result)
+//@   props C20
+//@   requires b != nil && b.mux != nil && handler != nil
+//@   modifies b.mux.msgHandlers
+//@   ensures result == b
+//@   ensures [C20] @registersnow len(b.mux.msgHandlers) == old(len(b.mux.msgHandlers)) + 1 && b.mux.msgHandlers[old(len(b.mux.msgHandlers))] == handler
+//@   ensures [C20] @orderkept forall k : 0 <= k && k < old(len(b.mux.msgHandlers)) ==> b.mux.msgHandlers[k] == old(b.mux.msgHandlers[k])
+
+//@ func (*ClientBuilder).MessageHandlerFunc :: (b, predicate, f) (result)
+//@   props C20
+//@   requires b != nil && b.mux != nil
+//@   modifies b.mux.msgHandlers
+//@   ensures result == b
+//@   ensures [C20] @registersnow len(b.mux.msgHandlers) == old(len(b.mux.msgHandlers)) + 1 && b.mux.msgHandlers[old(len(b.mux.msgHandlers))] != nil
+//@   ensures [C20] @wraps istype(b.mux.msgHandlers[old(len(b.mux.msgHandlers))], *messageHandler) && b.mux.msgHandlers[old(len(b.mux.msgHandlers))].(*messageHandler).predicate == predicate && b.mux.msgHandlers[old(len(b.mux.msgHandlers))].(*messageHandler).handlerFunc == f
+//@   ensures [C20] @orderkept forall k : 0 <= k && k < old(len(b.mux.msgHandlers)) ==> b.mux.msgHandlers[k] == old(b.mux.msgHandlers[k])
+//@ func (*ClientBuilder).MessagesHandlerFunc :: (b, f) (result)
+//@   props C20
+//@   requires b != nil && b.mux != nil
+//@   modifies b.mux.msgHandlers
+//@   ensures result == b
+//@   ensures [C20] @registersnow len(b.mux.msgHandlers) == old(len(b.mux.msgHandlers)) + 1 && b.mux.msgHandlers[old(len(b.mux.msgHandlers))] != nil
+//@   ensures [C20] @wraps istype(b.mux.msgHandlers[old(len(b.mux.msgHandlers))], *messageHandler) && b.mux.msgHandlers[old(len(b.mux.msgHandlers))].(*messageHandler).predicate != nil && b.mux.msgHandlers[old(len(b.mux.msgHandlers))].(*messageHandler).handlerFunc == f
+//@   ensures [C20] @orderkept forall k : 0 <= k && k < old(len(b.mux.msgHandlers)) ==> b.mux.msgHandlers[k] == old(b.mux.msgHandlers[k])
+//@ func (*ClientBuilder).MessageHandler :: (b, handler) (result)
+//@   props C20
+//@   requires b != nil && b.mux != nil && handler != nil
+//@   modifies b.mux.msgHandlers
+//@   ensures result == b
+//@   ensures [C20] @registersnow len(b.mux.msgHandlers) == old(len(b.mux.msgHandlers)) + 1 && b.mux.msgHandlers[old(len(b.mux.msgHandlers))] == handler
+//@   ensures [C20] @orderkept forall k : 0 <= k && k < old(len(b.mux.msgHandlers)) ==> b.mux.msgHandlers[k] == old(b.mux.msgHandlers[k])
+
+//@ func (*EnvelopeMux).NotificationHandlerFunc :: (m, predicate, f) ()
+//@   props C20
+//@   requires m != nil
+//@   modifies m.notHandlers
+//@   ensures [C20] @registersnow len(m.notHandlers) == old(len(m.notHandlers)) + 1 && m.notHandlers[old(len(m.notHandlers))] != nil
+//@   ensures [C20] @wraps istype(m.notHandlers[old(len(m.notHandlers))], *notificationHandler) && m.notHandlers[old(len(m.notHandlers))].(*notificationHandler).predicate == predicate && m.notHandlers[old(len(m.notHandlers))].(*notificationHandler).handlerFunc == f
+//@   ensures [C20] @orderkept forall k : 0 <= k && k < old(len(m.notHandlers)) ==> m.notHandlers[k] == old(m.notHandlers[k])
+
+//@ func (*ServerBuilder).NotificationHandlerFunc :: (b, predicate, f) (result)
+//@   props C20
+//@   requires b != nil && b.mux != nil
+//@   modifies b.mux.notHandlers
+//@   ensures result == b
+//@   ensures [C20] @registersnow len(b.mux.notHandlers) == old(len(b.mux.notHandlers)) + 1 && b.mux.notHandlers[old(len(b.mux.notHandlers))] != nil
+//@   ensures [C20] @wraps istype(b.mux.notHandlers[old(len(b.mux.notHandlers))], *notificationHandler) && b.mux.notHandlers[old(len(b.mux.notHandlers))].(*notificationHandler).predicate == predicate && b.mux.notHandlers[old(len(b.mux.notHandlers))].(*notificationHandler).handlerFunc == f
+//@   ensures [C20] @orderkept forall k : 0 <= k && k < old(len(b.mux.notHandlers)) ==> b.mux.notHandlers[k] == old(b.mux.notHandlers[k])
+//@ func (*ServerBuilder).NotificationsHandlerFunc :: (b, f) (result)
+//@   props C20
+//@   requires b != nil && b.mux != nil
+//@   modifies b.mux.notHandlers
+//@   ensures result == b
+//@   ensures [C20] @registersnow len(b.mux.notHandlers) == old(len(b.mux.notHandlers)) + 1 && b.mux.notHandlers[old(len(b.mux.notHandlers))] != nil
+//@   ensures [C20] @wraps istype(b.mux.notHandlers[old(len(b.mux.notHandlers))], *notificationHandler) && b.mux.notHandlers[old(len(b.mux.notHandlers))].(*notificationHandler).predicate != nil && b.mux.notHandlers[old(len(b.mux.notHandlers))].(*notificationHandler).handlerFunc == f
+//@   ensures [C20] @orderkept forall k : 0 <= k && k < old(len(b.mux.notHandlers)) ==> b.mux.notHandlers[k] == old(b.mux.notHandlers[k])
+//@ func (*ServerBuilder).NotificationHandler :: (b, handler) (result)
+//@   props C20
+//@   requires b != nil && b.mux != nil && handler != nil
+//@   modifies b.mux.notHandlers
+//@   ensures result == b
+//@   ensures [C20] @registersnow len(b.mux.notHandlers) == old(len(b.mux.notHandlers)) + 1 && b.mux.notHandlers[old(len(b.mux.notHandlers))] == handler
+//@   ensures [C20] @orderkept forall k : 0 <= k && k < old(len(b.mux.notHandlers)) ==> b.mux.notHandlers[k] == old(b.mux.notHandlers[k])
+
+//@ func (*ClientBuilder).NotificationHandlerFunc :: (b, predicate, f) (result)
+//@   props C20
+//@   requires b != nil && b.mux != nil
+//@   modifies b.mux.notHandlers
+//@   ensures result == b
+//@   ensures [C20] @registersnow len(b.mux.notHandlers) == old(len(b.mux.notHandlers)) + 1 && b.mux.notHandlers[old(len(b.mux.notHandlers))] != nil
+//@   ensures [C20] @wraps istype(b.mux.notHandlers[old(len(b.mux.notHandlers))], *notificationHandler) && b.mux.notHandlers[old(len(b.mux.notHandlers))].(*notificationHandler).predicate == predicate && b.mux.notHandlers[old(len(b.mux.notHandlers))].(*notificationHandler).handlerFunc == f
+//@   ensures [C20] @orderkept forall k : 0 <= k && k < old(len(b.mux.notHandlers)) ==> b.mux.notHandlers[k] == old(b.mux.notHandlers[k])
+//@ func (*ClientBuilder).NotificationsHandlerFunc :: (b, f) (result)
+//@   props C20
+//@   requires b != nil && b.mux != nil
+//@   modifies b.mux.notHandlers
+//@   ensures result == b
+//@   ensures [C20] @registersnow len(b.mux.notHandlers) == old(len(b.mux.notHandlers)) + 1 && b.mux.notHandlers[old(len(b.mux.notHandlers))] != nil
+//@   ensures [C20] @wraps istype(b.mux.notHandlers[old(len(b.mux.notHandlers))], *notificationHandler) && b.mux.notHandlers[old(len(b.mux.notHandlers))].(*notificationHandler).predicate != nil && b.mux.notHandlers[old(len(b.mux.notHandlers))].(*notificationHandler).handlerFunc == f
+//@   ensures [C20] @orderkept forall k : 0 <= k && k < old(len(b.mux.notHandlers)) ==> b.mux.notHandlers[k] == old(b.mux.notHandlers[k])
+//@ func (*ClientBuilder).NotificationHandler :: (b, handler) (result)
+//@   props C20
+//@   requires b != nil && b.mux != nil && handler != nil
+//@   modifies b.mux.notHandlers
+//@   ensures result == b
+//@   ensures [C20] @registersnow len(b.mux.notHandlers) == old(len(b.mux.notHandlers)) + 1 && b.mux.notHandlers[old(len(b.mux.notHandlers))] == handler
+//@   ensures [C20] @orderkept forall k : 0 <= k && k < old(len(b.mux.notHandlers)) ==> b.mux.notHandlers[k] == old(b.mux.notHandlers[k])
+
+//@ func (*EnvelopeMux).RequestCommandHandlerFunc :: (m, predicate, f) ()
+//@   props C20
+//@   requires m != nil
+//@   modifies m.reqCmdHandlers
+//@   ensures [C20] @registersnow len(m.reqCmdHandlers) == old(len(m.reqCmdHandlers)) + 1 && m.reqCmdHandlers[old(len(m.reqCmdHandlers))] != nil
+//@   ensures [C20] @wraps istype(m.reqCmdHandlers[old(len(m.reqCmdHandlers))], *requestCommandHandler) && m.reqCmdHandlers[old(len(m.reqCmdHandlers))].(*requestCommandHandler).predicate == predicate && m.reqCmdHandlers[old(len(m.reqCmdHandlers))].(*requestCommandHandler).handlerFunc == f
+//@   ensures [C20] @orderkept forall k : 0 <= k && k < old(len(m.reqCmdHandlers)) ==> m.reqCmdHandlers[k] == old(m.reqCmdHandlers[k])
+
+//@ func (*ServerBuilder).RequestCommandHandlerFunc :: (b, predicate, f) (result)
+//@   props C20
+//@   requires b != nil && b.mux != nil
+//@   modifies b.mux.reqCmdHandlers
+//@   ensures result == b
+//@   ensures [C20] @registersnow len(b.mux.reqCmdHandlers) == old(len(b.mux.reqCmdHandlers)) + 1 && b.mux.reqCmdHandlers[old(len(b.mux.reqCmdHandlers))] != nil
+//@   ensures [C20] @wraps istype(b.mux.reqCmdHandlers[old(len(b.mux.reqCmdHandlers))], *requestCommandHandler) && b.mux.reqCmdHandlers[old(len(b.mux.reqCmdHandlers))].(*requestCommandHandler).predicate == predicate && b.mux.reqCmdHandlers[old(len(b.mux.reqCmdHandlers))].(*requestCommandHandler).handlerFunc == f
+//@   ensures [C20] @orderkept forall k : 0 <= k && k < old(len(b.mux.reqCmdHandlers)) ==> b.mux.reqCmdHandlers[k] == old(b.mux.reqCmdHandlers[k])
+//@ func (*ServerBuilder).RequestCommandsHandlerFunc :: (b, f) (result)
+//@   props C20
+//@   requires b != nil && b.mux != nil
+//@   modifies b.mux.reqCmdHandlers
+//@   ensures result == b
+//@   ensures [C20] @registersnow len(b.mux.reqCmdHandlers) == old(len(b.mux.reqCmdHandlers)) + 1 && b.mux.reqCmdHandlers[old(len(b.mux.reqCmdHandlers))] != nil
+//@   ensures [C20] @wraps istype(b.mux.reqCmdHandlers[old(len(b.mux.reqCmdHandlers))], *requestCommandHandler) && b.mux.reqCmdHandlers[old(len(b.mux.reqCmdHandlers))].(*requestCommandHandler).predicate != nil && b.mux.reqCmdHandlers[old(len(b.mux.reqCmdHandlers))].(*requestCommandHandler).handlerFunc == f
+//@   ensures [C20] @orderkept forall k : 0 <= k && k < old(len(b.mux.reqCmdHandlers)) ==> b.mux.reqCmdHandlers[k] == old(b.mux.reqCmdHandlers[k])
+//@ func (*ServerBuilder).RequestCommandHandler :: (b, handler) (result)
+//@   props C20
+//@   requires b != nil && b.mux != nil && handler != nil
+//@   modifies b.mux.reqCmdHandlers
+//@   ensures result == b
+//@   ensures [C20] @registersnow len(b.mux.reqCmdHandlers) == old(len(b.mux.reqCmdHandlers)) + 1 && b.mux.reqCmdHandlers[old(len(b.mux.reqCmdHandlers))] == handler
+//@   ensures [C20] @orderkept forall k : 0 <= k && k < old(len(b.mux.reqCmdHandlers)) ==> b.mux.reqCmdHandlers[k] == old(b.mux.reqCmdHandlers[k])
+
+//@ func (*ClientBuilder).RequestCommandHandlerFunc :: (b, predicate, f) (result)
+//@   props C20
+//@   requires b != nil && b.mux != nil
+//@   modifies b.mux.reqCmdHandlers
+//@   ensures result == b
+//@   ensures [C20] @registersnow len(b.mux.reqCmdHandlers) == old(len(b.mux.reqCmdHandlers)) + 1 && b.mux.reqCmdHandlers[old(len(b.mux.reqCmdHandlers))] != nil
+//@   ensures [C20] @wraps istype(b.mux.reqCmdHandlers[old(len(b.mux.reqCmdHandlers))], *requestCommandHandler) && b.mux.reqCmdHandlers[old(len(b.mux.reqCmdHandlers))].(*requestCommandHandler).predicate == predicate && b.mux.reqCmdHandlers[old(len(b.mux.reqCmdHandlers))].(*requestCommandHandler).handlerFunc == f
+//@   ensures [C20] @orderkept forall k : 0 <= k && k < old(len(b.mux.reqCmdHandlers)) ==> b.mux.reqCmdHandlers[k] == old(b.mux.reqCmdHandlers[k])
+//@ func (*ClientBuilder).RequestCommandsHandlerFunc :: (b, f) (result)
+//@   props C20
+//@   requires b != nil && b.mux != nil
+//@   modifies b.mux.reqCmdHandlers
+//@   ensures result == b
+//@   ensures [C20] @registersnow len(b.mux.reqCmdHandlers) == old(len(b.mux.reqCmdHandlers)) + 1 && b.mux.reqCmdHandlers[old(len(b.mux.reqCmdHandlers))] != nil
+//@   ensures [C20] @wraps istype(b.mux.reqCmdHandlers[old(len(b.mux.reqCmdHandlers))], *requestCommandHandler) && b.mux.reqCmdHandlers[old(len(b.mux.reqCmdHandlers))].(*requestCommandHandler).predicate != nil && b.mux.reqCmdHandlers[old(len(b.mux.reqCmdHandlers))].(*requestCommandHandler).handlerFunc == f
+//@   ensures [C20] @orderkept forall k : 0 <= k && k < old(len(b.mux.reqCmdHandlers)) ==> b.mux.reqCmdHandlers[k] == old(b.mux.reqCmdHandlers[k])
+//@ func (*ClientBuilder).RequestCommandHandler :: (b, handler) (result)
+//@   props C20
+//@   requires b != nil && b.mux != nil && handler != nil
+//@   modifies b.mux.reqCmdHandlers
+//@   ensures result == b
+//@   ensures [C20] @registersnow len(b.mux.reqCmdHandlers) == old(len(b.mux.reqCmdHandlers)) + 1 && b.mux.reqCmdHandlers[old(len(b.mux.reqCmdHandlers))] == handler
+//@   ensures [C20] @orderkept forall k : 0 <= k && k < old(len(b.mux.reqCmdHandlers)) ==> b.mux.reqCmdHandlers[k] == old(b.mux.reqCmdHandlers[k])
+
+//@ func (*EnvelopeMux).ResponseCommandHandlerFunc :: (m, predicate, f) ()
+//@   props C20
+//@   requires m != nil
+//@   modifies m.respCmdHandlers
+//@   ensures [C20] @registersnow len(m.respCmdHandlers) == old(len(m.respCmdHandlers)) + 1 && m.respCmdHandlers[old(len(m.respCmdHandlers))] != nil
+//@   ensures [C20] @wraps istype(m.respCmdHandlers[old(len(m.respCmdHandlers))], *responseCommandHandler) && m.respCmdHandlers[old(len(m.respCmdHandlers))].(*responseCommandHandler).predicate == predicate && m.respCmdHandlers[old(len(m.respCmdHandlers))].(*responseCommandHandler).handlerFunc == f
+//@   ensures [C20] @orderkept forall k : 0 <= k && k < old(len(m.respCmdHandlers)) ==> m.respCmdHandlers[k] == old(m.respCmdHandlers[k])
+
+//@ func (*ServerBuilder).ResponseCommandHandlerFunc :: (b, predicate, f) (result)
+//@   props C20
+//@   requires b != nil && b.mux != nil
+//@   modifies b.mux.respCmdHandlers
+//@   ensures result == b
+//@   ensures [C20] @registersnow len(b.mux.respCmdHandlers) == old(len(b.mux.respCmdHandlers)) + 1 && b.mux.respCmdHandlers[old(len(b.mux.respCmdHandlers))] != nil
+//@   ensures [C20] @wraps istype(b.mux.respCmdHandlers[old(len(b.mux.respCmdHandlers))], *responseCommandHandler) && b.mux.respCmdHandlers[old(len(b.mux.respCmdHandlers))].(*responseCommandHandler).predicate == predicate && b.mux.respCmdHandlers[old(len(b.mux.respCmdHandlers))].(*responseCommandHandler).handlerFunc == f
+//@   ensures [C20] @orderkept forall k : 0 <= k && k < old(len(b.mux.respCmdHandlers)) ==> b.mux.respCmdHandlers[k] == old(b.mux.respCmdHandlers[k])
+//@ func (*ServerBuilder).ResponseCommandsHandlerFunc :: (b, f) (result)
+//@   props C20
+//@   requires b != nil && b.mux != nil
+//@   modifies b.mux.respCmdHandlers
+//@   ensures result == b
+//@   ensures [C20] @registersnow len(b.mux.respCmdHandlers) == old(len(b.mux.respCmdHandlers)) + 1 && b.mux.respCmdHandlers[old(len(b.mux.respCmdHandlers))] != nil
+//@   ensures [C20] @wraps istype(b.mux.respCmdHandlers[old(len(b.mux.respCmdHandlers))], *responseCommandHandler) && b.mux.respCmdHandlers[old(len(b.mux.respCmdHandlers))].(*responseCommandHandler).predicate != nil && b.mux.respCmdHandlers[old(len(b.mux.respCmdHandlers))].(*responseCommandHandler).handlerFunc == f
+//@   ensures [C20] @orderkept forall k : 0 <= k && k < old(len(b.mux.respCmdHandlers)) ==> b.mux.respCmdHandlers[k] == old(b.mux.respCmdHandlers[k])
+//@ func (*ServerBuilder).ResponseCommandHandler :: (b, handler) (result)
+//@   props C20
+//@   requires b != nil && b.mux != nil && handler != nil
+//@   modifies b.mux.respCmdHandlers
+//@   ensures result == b
+//@   ensures [C20] @registersnow len(b.mux.respCmdHandlers) == old(len(b.mux.respCmdHandlers)) + 1 && b.mux.respCmdHandlers[old(len(b.mux.respCmdHandlers))] == handler
+//@   ensures [C20] @orderkept forall k : 0 <= k && k < old(len(b.mux.respCmdHandlers)) ==> b.mux.respCmdHandlers[k] == old(b.mux.respCmdHandlers[k])
+
+//@ func (*ClientBuilder).ResponseCommandHandlerFunc :: (b, predicate, f) (result)
+//@   props C20
+//@   requires b != nil && b.mux != nil
+//@   modifies b.mux.respCmdHandlers
+//@   ensures result == b
+//@   ensures [C20] @registersnow len(b.mux.respCmdHandlers) == old(len(b.mux.respCmdHandlers)) + 1 && b.mux.respCmdHandlers[old(len(b.mux.respCmdHandlers))] != nil
+//@   ensures [C20] @wraps istype(b.mux.respCmdHandlers[old(len(b.mux.respCmdHandlers))], *responseCommandHandler) && b.mux.respCmdHandlers[old(len(b.mux.respCmdHandlers))].(*responseCommandHandler).predicate == predicate && b.mux.respCmdHandlers[old(len(b.mux.respCmdHandlers))].(*responseCommandHandler).handlerFunc == f
+//@   ensures [C20] @orderkept forall k : 0 <= k && k < old(len(b.mux.respCmdHandlers)) ==> b.mux.respCmdHandlers[k] == old(b.mux.respCmdHandlers[k])
+//@ func (*ClientBuilder).ResponseCommandsHandlerFunc :: (b, f) (result)
+//@   props C20
+//@   requires b != nil && b.mux != nil
+//@   modifies b.mux.respCmdHandlers
+//@   ensures result == b
+//@   ensures [C20] @registersnow len(b.mux.respCmdHandlers) == old(len(b.mux.respCmdHandlers)) + 1 && b.mux.respCmdHandlers[old(len(b.mux.respCmdHandlers))] != nil
+//@   ensures [C20] @wraps istype(b.mux.respCmdHandlers[old(len(b.mux.respCmdHandlers))], *responseCommandHandler) && b.mux.respCmdHandlers[old(len(b.mux.respCmdHandlers))].(*responseCommandHandler).predicate != nil && b.mux.respCmdHandlers[old(len(b.mux.respCmdHandlers))].(*responseCommandHandler).handlerFunc == f
+//@   ensures [C20] @orderkept forall k : 0 <= k && k < old(len(b.mux.respCmdHandlers)) ==> b.mux.respCmdHandlers[k] == old(b.mux.respCmdHandlers[k])
+//@ func (*ClientBuilder).ResponseCommandHandler :: (b, handler) (result)
+//@   props C20
+//@   requires b != nil && b.mux != nil && handler != nil
+//@   modifies b.mux.respCmdHandlers
+//@   ensures result == b
+//@   ensures [C20] @registersnow len(b.mux.respCmdHandlers) == old(len(b.mux.respCmdHandlers)) + 1 && b.mux.respCmdHandlers[old(len(b.mux.respCmdHandlers))] == handler
+//@   ensures [C20] @orderkept forall k : 0 <= k && k < old(len(b.mux.respCmdHandlers)) ==> b.mux.respCmdHandlers[k] == old(b.mux.respCmdHandlers[k])
+
+//@ func (*ServerBuilder).AutoReplyPings :: (b) (result)
+//@   props C20
+//@   requires b != nil && b.mux != nil
+//@   modifies b.mux.reqCmdHandlers
+//@   ensures result == b
+//@   ensures [C20] @registersnow len(b.mux.reqCmdHandlers) == old(len(b.mux.reqCmdHandlers)) + 1 && b.mux.reqCmdHandlers[old(len(b.mux.reqCmdHandlers))] != nil
+//@   ensures [C20] @wraps istype(b.mux.reqCmdHandlers[old(len(b.mux.reqCmdHandlers))], *requestCommandHandler) && b.mux.reqCmdHandlers[old(len(b.mux.reqCmdHandlers))].(*requestCommandHandler).predicate != nil && b.mux.reqCmdHandlers[old(len(b.mux.reqCmdHandlers))].(*requestCommandHandler).handlerFunc != nil
+//@   ensures [C20] @orderkept forall k : 0 <= k && k < old(len(b.mux.reqCmdHandlers)) ==> b.mux.reqCmdHandlers[k] == old(b.mux.reqCmdHandlers[k])
+
+//@ func (*ClientBuilder).AutoReplyPings :: (b) (result)
+//@   props C20
+//@   requires b != nil && b.mux != nil
+//@   modifies b.mux.reqCmdHandlers
+//@   ensures result == b
+//@   ensures [C20] @registersnow len(b.mux.reqCmdHandlers) == old(len(b.mux.reqCmdHandlers)) + 1 && b.mux.reqCmdHandlers[old(len(b.mux.reqCmdHandlers))] != nil
+//@   ensures [C20] @wraps istype(b.mux.reqCmdHandlers[old(len(b.mux.reqCmdHandlers))], *requestCommandHandler) && b.mux.reqCmdHandlers[old(len(b.mux.reqCmdHandlers))].(*requestCommandHandler).predicate != nil && b.mux.reqCmdHandlers[old(len(b.mux.reqCmdHandlers))].(*requestCommandHandler).handlerFunc != nil
+//@   ensures [C20] @orderkept forall k : 0 <= k && k < old(len(b.mux.reqCmdHandlers)) ==> b.mux.reqCmdHandlers[k] == old(b.mux.reqCmdHandlers[k])
+
+// Build hands the mux over as it is: nothing is registered, removed or reordered
+// at build time (the tables are outside Build's frame).
+//@ globalinv defaultServerConfig != nil  ## package initialiser: var defaultServerConfig = NewServerConfig(), never reassigned
+//@ func NewServer :: (config, mux, listeners) (result)
+//@   props C20
+//@   panics only-if mux == nil || len(listeners) == 0
+//@   modifies nothing
+//@   ensures [C20] @samemux result != nil && fresh(result) && result.mux == mux
+//@ func (*ServerBuilder).Build :: (b) (result)
+//@   props C20
+//@   requires b != nil && b.config != nil
+//@   panics only-if b.mux == nil || len(b.listeners) == 0
+//@   modifies b.config.Authenticate
+//@   ensures [C20] @samemux result != nil && result.mux == b.mux
 
 // ---------------------------------------------------------------------------
 // C01 / C02 - envelope codec: raw-level contracts (toRawEnvelope / populate /
